@@ -40,11 +40,74 @@ GEN_PACKAGE = {
 # cases: a case is {'root', 'files': {path: {'kind': 'ok'|'syntax', 'items': [...]}}, 'flags': 'yaml'|'gen_ok'|'gen_boom'|'none', ...}
 # items: ['import', path] | ['decl', {'name', 'form', 'refs', 'post_ok', 'comment'}] | ['comment', text]
 
+# ---------------------------------------------------------------------------------------------------------------------
+# validation-fault catalogue: one entry per error-message family of AstValidator (both stages).  Each entry is a declaration {N}
+# (with an optional VALID helper declaration {H}) that parses, makes the named stage report the named message and nothing else;
+# the property demands exit status exactly 2 and no output for every one of them, wherever in the import graph it sits and
+# whatever output / generator was requested.  (key, stage, helper text, declaration text, message fragment)
+
+HELPER_STRUCT = 'struct {H}\n\tkey_aa = uint8\n\tkey_bb = uint16\n'
+HELPER_ENUM = 'enum {H} : uint8\n\tVALUE_A = 1\n\tVALUE_B = 2\n'
+HELPER_ALIAS = 'using {H} = uint32\n'
+UNDECLARED = 'UndeclaredMarker'   # what a pre-expansion fault "refers to" in the model / oracle: a name nothing declares
+VALIDATION_FAULTS = [
+	('unknown-member-type', 'pre', None, 'struct {N}\n\tfield_aa = uint8\n\tfield_bb = Nowhere9\n', 'reference to unknown type'),
+	('unknown-element-type', 'pre', None, 'struct {N}\n\tfield_aa = uint8\n\tfield_bb = array(Nowhere9, 2)\n', 'reference to unknown element type'),
+	('unknown-unnamed-inline', 'pre', None, 'struct {N}\n\tinline Nowhere9\n\tfield_bb = uint8\n', 'reference to unknown inlined type'),
+	('unknown-named-inline', 'pre', None, 'struct {N}\n\tfield_aa = inline Nowhere9\n\tfield_bb = uint8\n', 'reference to unknown type'),
+	('named-inline-of-non-inline-struct', 'pre', HELPER_STRUCT, 'struct {N}\n\tfield_aa = inline {H}\n\tfield_bb = uint8\n', 'named inline field referencing non inline struct'),
+	('named-inline-of-alias', 'pre', HELPER_ALIAS, 'struct {N}\n\tfield_aa = inline {H}\n\tfield_bb = uint8\n', 'named inline field referencing non inline struct'),
+	('unknown-size-member', 'pre', None, 'struct {N}\n\tfield_aa = uint8\n\tfield_bb = array(uint8, no_such)\n', 'reference to unknown size property'),
+	('unknown-sort-key', 'post', HELPER_STRUCT, 'struct {N}\n\tfield_aa = uint8\n\t@sort_key(no_such)\n\tfield_bb = array({H}, field_aa)\n', 'reference to unknown sort_key property'),
+	('sort-key-on-alias-elements', 'post', HELPER_ALIAS, 'struct {N}\n\tfield_aa = uint8\n\t@sort_key(key_aa)\n\tfield_bb = array({H}, field_aa)\n', 'reference to unknown sort_key property'),
+	('unknown-sizeof-member', 'pre', None, 'struct {N}\n\tfield_aa = uint8\n\tfield_bb = sizeof(uint16, no_such)\n', 'reference to unknown sizeof property'),
+	('sizeof-of-fixed-size-type', 'pre', None, 'struct {N}\n\tfield_aa = uint32\n\tfield_bb = sizeof(uint16, field_aa)\n', 'sizeof property references fixed size type'),
+	('sizeof-of-alias', 'pre', HELPER_ALIAS, 'struct {N}\n\tfield_aa = {H}\n\tfield_bb = sizeof(uint16, field_aa)\n', 'sizeof property references fixed size type'),
+	('sizeof-of-unknown-type', 'pre', None, 'struct {N}\n\tfield_aa = Nowhere9\n\tfield_bb = sizeof(uint16, field_aa)\n', 'sizeof property references unknown type'),
+	('sizeof-without-size-implicit', 'pre', HELPER_STRUCT, 'struct {N}\n\tfield_aa = {H}\n\tfield_bb = sizeof(uint16, field_aa)\n', 'without is_size_implicit attribute'),
+	('unknown-sizeref-member', 'post', None, 'struct {N}\n\t@sizeref(no_such, 2)\n\tfield_aa = uint16\n\tfield_bb = uint8\n', 'reference to unknown sizeref property'),
+	('unknown-condition-member', 'pre', None, 'struct {N}\n\tfield_aa = uint8\n\tfield_bb = uint8 if 3 equals no_such\n', 'reference to unknown condition field'),
+	('bad-condition-enum-value', 'pre', HELPER_ENUM, 'struct {N}\n\tfield_aa = {H}\n\tfield_bb = uint8 if VALUE_Z equals field_aa\n', 'is not a valid enum value'),
+	('bad-condition-numeric-value', 'pre', None, 'struct {N}\n\tfield_aa = uint8\n\tfield_bb = uint8 if VALUE_Z equals field_aa\n', 'is not a valid numeric value'),
+	('bad-constant-enum-value', 'pre', HELPER_ENUM, 'struct {N}\n\tFIELD_AA = make_const({H}, VALUE_Z)\n\tfield_bb = uint8\n', 'is not a valid enum value'),
+	('bad-reserved-enum-value', 'pre', HELPER_ENUM, 'struct {N}\n\tfield_aa = make_reserved({H}, VALUE_Z)\n\tfield_bb = uint8\n', 'is not a valid enum value'),
+	('bad-constant-numeric-value', 'pre', HELPER_ALIAS, 'struct {N}\n\tFIELD_AA = make_const({H}, VALUE_A)\n\tfield_bb = uint8\n', 'is not a valid numeric value'),
+	('duplicate-member', 'pre', None, 'struct {N}\n\tfield_aa = uint8\n\tfield_aa = uint16\n', 'duplicate struct fields'),
+	('duplicate-enum-value', 'pre', None, 'enum {N} : uint8\n\tVALUE_A = 1\n\tVALUE_A = 2\n', 'duplicate enum values'),
+	('inapplicable-sort-key', 'pre', None, 'struct {N}\n\tfield_aa = uint8\n\t@sort_key(field_aa)\n\tfield_bb = uint16\n', 'inapplicable attribute'),
+	('inapplicable-alignment', 'pre', HELPER_ALIAS, 'struct {N}\n\tfield_aa = uint8\n\t@alignment(8)\n\tfield_bb = {H}\n', 'inapplicable attribute'),
+	('inapplicable-byte-constrained', 'pre', HELPER_STRUCT, 'struct {N}\n\tfield_aa = uint8\n\t@is_byte_constrained\n\tfield_bb = {H}\n', 'inapplicable attribute'),
+	('unknown-size-attribute-target', 'post', None, '@size(no_such)\nstruct {N}\n\tfield_aa = uint8\n\tfield_bb = uint16\n', 'reference to unknown "size" property'),
+	('size-attribute-target-of-wrong-type', 'post', None, '@size(field_bb)\nstruct {N}\n\tfield_aa = uint8\n\tfield_bb = array(uint8, field_aa)\n', 'has unexpected type'),
+	('unknown-discriminator-target', 'post', None, '@discriminator(field_aa, no_such)\nstruct {N}\n\tfield_aa = uint8\n\tfield_bb = uint16\n', 'reference to unknown "discriminator" property'),
+	('unknown-comparer-target', 'post', None, '@comparer(no_such)\nstruct {N}\n\tfield_aa = uint8\n\tfield_bb = uint16\n', 'reference to unknown "comparer" property'),
+	('unknown-initializes-target', 'post', None, '@initializes(no_such, FIELD_CC)\nstruct {N}\n\tFIELD_CC = make_const(uint8, 3)\n\tfield_bb = uint16\n', 'reference to unknown "intializes" property'),
+	('unknown-initializes-value', 'post', None, '@initializes(field_bb, NO_SUCH)\nstruct {N}\n\tfield_aa = uint8\n\tfield_bb = uint16\n', 'reference to unknown "intializes" property'),
+	('initializes-of-different-type', 'post', None, '@initializes(field_bb, FIELD_CC)\nstruct {N}\n\tFIELD_CC = make_const(uint8, 3)\n\tfield_bb = uint16\n', 'of different type'),
+]
+FAULT_BY_KEY = {entry[0]: entry for entry in VALIDATION_FAULTS}
+
+
+def fault_decls(key, name):
+	"""The declaration items (helper first) that plant validation fault `key` under the type name `name`."""
+	_, stage, helper, text, _ = FAULT_BY_KEY[key]
+	items = []
+	helper_name = f'{name}Hx'
+	if helper:
+		items.append(['decl', {'name': helper_name, 'form': 'raw', 'text': helper.format(H=helper_name), 'refs': [], 'post_ok': True, 'comment': False}])
+	items.append(['decl', {
+		'name': name, 'form': 'raw', 'text': text.format(N=name, H=helper_name), 'refs': [UNDECLARED] if stage == 'pre' else [],
+		'post_ok': stage != 'post', 'comment': False, 'fault': key}])
+	return items
+
+
 def render_decl(decl):
 	lines = []
 	if decl.get('comment'):
 		lines.append(f'# about {decl["name"]}')
 	form = decl['form']
+	if form == 'raw':
+		return '\n'.join(lines + [decl['text'].rstrip('\n')]) + '\n'
 	if form == 'alias':
 		lines.append(f'using {decl["name"]} = {decl.get("base", "uint32")}')
 	elif form == 'enum':
@@ -143,6 +206,17 @@ def directed_cases():
 		('root-in-subdirectory', C, {C: ok_file(imp(D), imp(A), dc), D: ok_file(imp(C), dd), A: ok_file(da, decl('TyA2'))}),
 	]
 	out = []
+	# every validation fault family in the root, in a mid-level file and in a leaf; plain YAML output for the root position,
+	# a working generator for the mid-level one, a failing generator for the leaf (validation comes first: still 2, nothing written)
+	for key, _, _, _, _ in VALIDATION_FAULTS:
+		for position, flags in (('root', 'yaml'), ('mid', 'gen_ok'), ('leaf', 'gen_boom')):
+			files = {A: ok_file(imp(B), decl('TyA'), decl('TyA2')), B: ok_file(imp(C), decl('TyB'), decl('TyB2')), C: ok_file(decl('TyC'), decl('TyC2'))}
+			target = {'root': A, 'mid': B, 'leaf': C}[position]
+			files[target]['items'] += fault_decls(key, 'FaultTy')
+			out.append({'name': f'directed:validation:{key}:{position}', 'root': A, 'files': files, 'flags': flags, 'cli': 'one', 'directed': True})
+	# the same fault in a file that exists but is not imported must not matter
+	files = {A: ok_file(imp(B), decl('TyA')), B: ok_file(decl('TyB'), decl('TyB2')), C: ok_file(decl('TyC'), *fault_decls('unknown-unnamed-inline', 'FaultTy'))}
+	out.append({'name': 'directed:validation:fault-in-unimported-file', 'root': A, 'files': files, 'flags': 'yaml', 'cli': 'one', 'directed': True})
 	for index, (name, root, files) in enumerate(cases):
 		for flags in (('yaml', 'gen_ok', 'gen_boom', 'none') if name in ('diamond', 'unknown-type', 'missing-import') else ('yaml',)):
 			out.append({'name': f'directed:{name}', 'root': root, 'files': files, 'flags': flags, 'cli': True, 'directed': True})
@@ -227,13 +301,20 @@ def random_case(rng, number):
 	for struct in structs:
 		if targets and rng.randrange(2):
 			struct['refs'] = [rng.choice(targets) for _ in range(rng.randrange(1, 3))]
-	fault = rng.choice(['none'] * 6 + ['missing', 'syntax', 'unknown', 'post', 'missing-root'])
+	fault = rng.choice(['none'] * 6 + ['missing', 'syntax', 'unknown', 'post', 'missing-root', 'catalogue', 'catalogue', 'catalogue'])
 	if fault == 'missing':
 		victim = rng.choice(paths)
 		files[victim]['items'].insert(rng.randrange(len(files[victim]['items']) + 1), imp(f'gone{number % 7}.cats'))
 	elif fault == 'syntax':
 		victim = rng.choice(paths[1:])
 		files[victim] = {'kind': 'syntax', 'text': rng.choice(['using lowercase = uint32\n', 'struct\n', '', 'import nothing\n', 'using Ab = uint32'])}
+	elif fault == 'catalogue':
+		key = rng.choice(VALIDATION_FAULTS)[0]
+		victim = rng.choice(paths)
+		if files[victim]['kind'] == 'ok':
+			position = rng.randrange(len(files[victim]['items']) + 1)
+			files[victim]['items'][position:position] = fault_decls(key, fresh('Fa'))
+		fault = f'validation-{key}'
 	elif fault == 'unknown' and structs:
 		rng.choice(structs)['refs'].append('Nowhere')
 	elif fault == 'post' and structs:
@@ -318,10 +399,21 @@ def reachable_files(case):
 	return seen
 
 
+def reachable_faults(case):
+	"""Keys of the catalogue faults planted in files the root reaches."""
+	return [item[1]['fault'] for p in reachable_files(case) if case['files'][p]['kind'] == 'ok'
+		for item in case['files'][p]['items'] if item[0] == 'decl' and item[1].get('fault')]
+
+
 def classify(case, observed):
 	"""Stable signature of a property failure, by the shape of the failing graph and the symptom."""
 	reach = reachable_files(case)
 	shapes = {p: lark_statements(case['files'][p]) for p in reach if case['files'][p]['kind'] == 'ok'}
+	expected = oracle(case)
+	faults = reachable_faults(case)
+	if faults and observed.get('parse') == expected[0] and expected[1] == 2 and observed.get('exit') != 2:
+		# resolution is right and only validation fails, yet the status is not 2
+		return f'validation-only-failure-exits-{observed.get("exit")}:{faults[0]}'
 	if 'AttributeError' in observed.get('exception', '') and any(shape == ['comment'] for shape in shapes.values()):
 		return 'comment-only-file-crash'
 	if any(shape == ['import'] for shape in shapes.values()):
@@ -391,8 +483,9 @@ def main_inprocess(cwd, args):
 	sys.argv = ['catparser'] + args
 	os.chdir(cwd)
 	code, raised = 0, ''
+	console = io.StringIO()
 	try:
-		with contextlib.redirect_stdout(io.StringIO()), contextlib.redirect_stderr(io.StringIO()):
+		with contextlib.redirect_stdout(console), contextlib.redirect_stderr(console):
 			main()
 	except SystemExit as ex:
 		code = ex.code if isinstance(ex.code, int) else (0 if ex.code is None else 1)
@@ -403,7 +496,7 @@ def main_inprocess(cwd, args):
 	finally:
 		sys.argv = old_argv
 		os.chdir(old_cwd)
-	return code, raised
+	return code, raised, console.getvalue()
 
 
 def variants(directory, root, full):
@@ -456,13 +549,15 @@ def execute(job):
 		result['parse'], result['exception'] = class_parse(directory, directory / case['root'])
 		flags = case['flags']
 		cli_jobs = []
-		for index, (label, cwd, schema, include) in enumerate(variants(directory, case['root'], case['cli'])):
+		for index, (label, cwd, schema, include) in enumerate(variants(directory, case['root'], case['cli'] is True)):
 			output = outdir / f'in{index}.out'
-			code, raised = main_inprocess(cwd, ['-s', schema, '-i', include, '-q'] + flag_args(flags, output))
+			code, raised, console = main_inprocess(cwd, ['-s', schema, '-i', include, '-q'] + flag_args(flags, output))
 			data = output.read_bytes() if output.is_file() else None
 			result['runs'].append({'how': 'main()', 'variant': label, 'exit': code, 'raised': raised,
 				'output': None if data is None else data.decode('utf8', 'replace'), 'names': names_of_output(flags, data)})
-			if case['cli']:
+			if index == 0:
+				result['console'] = console[-4000:]
+			if case['cli'] is True or (case['cli'] == 'one' and index == 0):
 				output = outdir / f'cli{index}.out'
 				quiet = ['-q'] if index else []
 				cli_jobs.append((label, cwd, ['-s', schema, '-i', include] + quiet + flag_args(flags, output), output, not quiet))
@@ -631,19 +726,25 @@ def run(check, unrecognised):
 		'modelled, not verified: lark (a file is a list of top-level statements; `?start` hands a lone statement back unwrapped), '
 		'pathlib.Path.resolve as the file identity, argparse, CPython exit status 1 on an uncaught exception, yaml.dump',
 		'validation is modelled only as far as resolution matters (every referenced type is declared somewhere in the resolved set; one '
-		'post-expansion-only rule); the validator itself is C06']
+		'post-expansion-only rule); the validator itself is C06: the fault catalogue (one declaration per AstValidator message family, stage as '
+		'observed on the pinned tree) enters the model only as pre-fails / post-fails']
 	check.assume += [
 		'path spellings inside import statements are canonical (relative to the include root, no `..`); type names are unique across files',
 		'the file system does not change during a run']
 	check.extra['rule'] = 'directed small graphs (one feature each: chain, diamond, repeated/self imports, cycles through and not through ' \
 		'the root, single-statement / import-only / comment-only files, references through imports, missing / unparsable files, validation ' \
-		'failures before and after expansion, generator ok/failing/absent) + seeded random import graphs of 3-12 files (styles chain, diamond, ' \
-		'dag, dense, cyclic, cyclic through root; faults none/missing/syntax/unknown/post/missing-root); every graph is written as .cats files ' \
+		'failures before and after expansion, generator ok/failing/absent; every AstValidator error family of the fault catalogue planted in ' \
+		'the root, a mid-level file and a leaf with YAML / working generator / failing generator requested: exit status exactly 2, nothing written) + seeded random import graphs of 3-12 files (styles chain, diamond, ' \
+		'dag, dense, cyclic, cyclic through root; faults none/missing/syntax/unknown/post/missing-root/any catalogue entry); every graph is written as .cats files ' \
 		'and run through LarkMultiFileParser and main() in-process from 3 (cwd, spelling) variants, CLI subprocesses from 6 variants for the ' \
 		'directed ones and a subset of the random ones; distinct = distinct file contents; all non-trivial'
 	mine = unrecognised.get('ResolveOps') or []
 	if mine:
+		# an anchor whose shape is no longer the recognised one is a broken tie (DESIGN section 0, step 2): the theorems then speak about
+		# the pinned shape only; the correspondence and the oracle below look for a concrete failing input
 		check.notes.append(f'anchors not recognised, pinned (intended-behaviour) hole values used for them: {mine}')
+		for key in mine:
+			check.broken.append(f'shape:{key}')
 	check.prove('C17.v')
 	cases = gen_cases(check.rng, check.tier)
 	base = common.scratch_dir('c17')
@@ -663,6 +764,11 @@ def run(check, unrecognised):
 			if canonical(*expected) != model:
 				# the oracle and the theorem-carrying model must agree; a difference means the holes no longer have the intended values
 				check.disagree('Resolve-model-vs-property-oracle', {'name': case['name'], 'root': case['root']}, canonical(*expected), model)
+			planted = reachable_faults(case)
+			if planted and expected[1] == 2 and FAULT_BY_KEY[planted[0]][4] not in result.get('console', ''):
+				# the catalogue is tied to AstValidator's messages: an entry that no longer triggers its family is a stale catalogue
+				check.disagree('fault-catalogue-vs-AstValidator', {'name': case['name'], 'fault': planted[0]},
+					result.get('console', '')[-300:], FAULT_BY_KEY[planted[0]][4])
 			if problems:
 				signature = classify(case, observed)
 				report = case
